@@ -122,6 +122,11 @@ def gen_cases(tier, seed):
                     yield dict(kind="tts_fh", n=n, fh=fh, rel=rel, X=withX,
                                yk=YK[(i + seed) % 2], fhc=FHC[(i + seed) % 3])
                     i += 1
+                # absolute time points that end 1 or 3 observations before the end of the series
+                for back in (1, 3):
+                    yield dict(kind="tts_fh", n=n, fh=fh, rel=False, X=withX, back=back,
+                               yk=YK[(i + seed) % 2], fhc=FHC[(i + seed) % 3])
+                    i += 1
 
 
 def _mk_fh(fh, fhc):
@@ -360,6 +365,7 @@ def _run_tts(case, res):
     if rel:
         fhv = _mk_fh(fh, case["fhc"])
     else:
+        c -= case.get("back", 0)
         if c < 0:
             return res
         # absolute time points: everything before the first requested point is training
@@ -374,7 +380,7 @@ def _run_tts(case, res):
     if not out.ok:
         res.violate("tts_fh:raises", "valid fh rejected", observed=out.brief())
         return res
-    res.nt(("tts_fh", n, tuple(fh), rel, case["X"]))
+    res.nt(("tts_fh", n, tuple(fh), rel, case["X"], case.get("back", 0)))
     parts = out.value
     e_tr = y.iloc[:c + 1]
     e_te = y.iloc[[c + h for h in fh]]
@@ -387,7 +393,8 @@ def _run_tts(case, res):
             res.violate("tts_fh:Xtrain", "X_train differs from y_train rows",
                         observed=list(parts[2].index))
         xt = list(parts[3].index)
-        if not xt or xt[0] <= lab[c] or xt[-1] > lab[-1] or xt != sorted(xt):
+        if not xt or xt[0] <= lab[c] or xt[-1] > lab[-1] or xt != sorted(xt) or \
+                (case.get("back") and xt[-1] > lab[c + fh[-1]]):
             res.violate("tts_fh:Xtest", "X_test not strictly after the cutoff / inside series",
                         observed=xt)
     return res
